@@ -80,7 +80,7 @@ impl Prop for C16 {
         v
     }
     fn rule(&self) -> String {
-        "case = seeded history (commits, reorgs) that leaves some Store contracts deployed, then 4-10 probes at the block boundary. Each probe draws a program (storage loops, refund-dominated slot clearing, logs, cheap loops, nested CALL, STATICCALL to precompiles, CREATE2, revert) and (a) submits it, as hex or as raw / zstd base64, with an inscription length from {0,1,2,need-1,need,need+1,2*need,2000,10^6,2^64-1}: receipt gasUsed <= min(len*12000, 2^64-1), and a failed transaction leaves accounts/code/storage unchanged except its sender's nonce; (b) closes the estimate loop: eth_estimateGas -> brc20_call with inscription_byte_len = ceil(estimate/12000) must succeed with the output eth_call returned. distinct = sha256 of (ops, probe seed); non-trivial = at least one estimate loop closed and one transaction failed for lack of allowance".into()
+        "case = seeded history (commits, reorgs) that leaves some Store contracts deployed, then 4-10 probes at the block boundary. Each probe draws a program (storage loops, refund-dominated slot clearing, logs, cheap loops, nested CALL, STATICCALL to precompiles, CREATE2, revert) and (a) submits it, as hex or as raw / zstd base64, with an inscription length from {0,1,2,need-1,need,need+1,2*need,2000,10^6,2^64-1}: receipt gasUsed <= min(len*12000, 2^64-1), and a failed transaction leaves accounts/code/storage unchanged except its sender's nonce; (b) closes the estimate loop (in a third of the runs also across a reorg: estimate, orphan the block that made the call cheap, regrow the height differently, estimate again, submit): eth_estimateGas -> brc20_call with inscription_byte_len = ceil(estimate/12000) must succeed with the output eth_call returned. distinct = sha256 of (ops, probe seed); non-trivial = at least one estimate loop closed and one transaction failed for lack of allowance".into()
     }
     fn assumptions(&self) -> Vec<String> {
         vec!["programs that swallow sub-call failures (Multi) or read GAS/TIMESTAMP/PREVRANDAO/0xfa are excluded, as the statement allows".into()]
@@ -282,6 +282,47 @@ impl Prop for C16 {
                     }
                     closed = true;
                     w.stats.bump("probe_estimate_loop_closed");
+                }
+            }
+        }
+        // an estimate is made for the state the call will meet: ask, orphan the block that made the call cheap, grow a
+        // different block of the same height, ask again - the second answer must be sufficient on the new branch
+        if violation.is_none() && w.height.map_or(false, |h| h >= 1) && w.open.is_none() && rng.chance(1, 3) {
+            let stores: Vec<String> = w.book.contracts.iter().filter(|c| c.kind == "store").map(|c| c.addr.clone()).collect();
+            if let Some(addr) = stores.first().cloned() {
+                let target = Target::Addr(addr);
+                let sender = rng.below(N_PK as u64) as u8;
+                let slot = 40 + rng.below(4);
+                id += 1;
+                let ts0 = crate::world::BASE_TS + 4_000_000 + id as u64;
+                w.op_index = base + 200;
+                // block H-1 on the first branch: the slot becomes non-zero (writing it again is cheap)
+                let fill = Tx { id, kind: TxKind::Call { sender, target: target.clone(), by_inscription: false, data: Cd::Sstore(vec![(slot, 7)]) }, len: LenPolicy::Generous, enc: Enc::Hex };
+                w.exec(base + 200, &Op::Block { ts: 4_000_000 + id as u64, hash: HashMode::Zero, txs: vec![fill], finalise: true });
+                let data = Cd::Sstore(vec![(slot, 9)]);
+                let call = w.eth_call_obj(&Who::Pk(sender), &Some(target.clone()), &data, &None);
+                let first = w.inst.call("eth_estimateGas", json!([call]));
+                let back = w.height.unwrap_or(1).saturating_sub(1);
+                if w.reorg_to(back).is_ok() {
+                    // the same height again, without the write
+                    w.exec(base + 201, &Op::Mine { n: 1 });
+                    let second = w.inst.call("eth_estimateGas", json!([call]));
+                    if let (Resp::Ok(e1), Resp::Ok(e2)) = (&first, &second) {
+                        let need = hex_u64(e2).map(|e| e.div_ceil(GAS_PER_BYTE)).unwrap_or(4);
+                        id += 1;
+                        let tx = Tx { id, kind: TxKind::Call { sender, target: target.clone(), by_inscription: false, data: data.clone() }, len: LenPolicy::Exact(need), enc: Enc::Hex };
+                        let r = w.exec_tx(ts0 + 5, &HashMode::Zero, &tx);
+                        let _ = w.finalise(ts0 + 5, &HashMode::Zero);
+                        w.stats.bump("probe_estimate_again_after_reorg");
+                        if let Resp::Ok(rc) = &r {
+                            if hex_u64(&rc["status"]) != Some(1) {
+                                violation = Some(Violation::new(
+                                    "estimate-not-sufficient/after-reorg",
+                                    json!({"estimate_on_the_orphaned_branch": e1, "estimate_on_the_new_branch": e2, "inscription_byte_len": need, "receipt": trunc(rc)}),
+                                ));
+                            }
+                        }
+                    }
                 }
             }
         }
